@@ -68,7 +68,8 @@ RetDev(o, j) ==
   LET ln == o.lines[j]  w == ln.m0[1] IN
   IF o.align = 0 THEN <<ln.ret[1] - ln.mp[1], ln.ret[2] - ln.mp[2]>>
   ELSE IF o.align = 2 THEN <<ln.ret[1] - (o.pos[1] + 1), ln.ret[2] - ln.mp[2]>>
-  ELSE LET d == 2 * (ln.ret[1] - w) + w - 1 - 2 * o.pos[1] IN        \* doubled distance of the box middle from pos.x
+  ELSE LET d == 2 * ((ln.ret[1] - w) - o.pos[1]) + w - 1 IN          \* doubled distance of the box middle from pos.x
+                                                                      \* (differences first: positions may be near 2^31)
        <<IF Abs(d) <= 1 THEN 0 ELSE d, ln.ret[2] - ln.mp[2]>>
 RetConstrained(o, j) ==
   LET ln == o.lines[j] IN
